@@ -805,7 +805,7 @@ class Ext:
         n = sl.length()
         if which == "get":
             if not isinstance(a[1], IntV):
-                return None
+                return self.sl_get(e, st, a)          # get_mut(range): a sub-slice
             idx = a[1].l
         else:
             idx = lin(0) if which == "first" else n - 1
